@@ -353,20 +353,20 @@ Inductive ws : list elem -> Prop :=
 
 Definition delimited (ls : list elem) : Prop := ls <> [] /\ ws ls.
 
-Lemma lruns_ext d1 ls1 d2 ls2 ns : lnext d1 ls1 = lnext d2 ls2 -> lruns d2 ls2 ns -> lruns d1 ls1 ns.
+Lemma lruns_ext d1 s1 ls1 d2 s2 ls2 ns : lnext d1 s1 ls1 = lnext d2 s2 ls2 -> lruns d2 s2 ls2 ns -> lruns d1 s1 ls1 ns.
 Proof.
-  intros E H. inversion H as [d ls El|d ls n d' ls' ns' El Hr]; subst.
+  intros E H. inversion H as [d sd ls El|d sd ls n d' sd' ls' ns' El Hr]; subst.
   - apply lruns_end. congruence.
   - eapply lruns_node; [rewrite E; exact El|exact Hr].
 Qed.
 
 (* the name a stale filename element left behind does not matter *)
-Lemma name_independent : forall ls, ws ls -> forall d x y,
-  lloop d (set_name locals0 x) ls = lloop d (set_name locals0 y) ls.
+Lemma name_independent : forall ls, ws ls -> forall d sd x y,
+  lloop d sd (set_name locals0 x) ls = lloop d sd (set_name locals0 y) ls.
 Proof.
-  induction 1 as [|h items r Hr IH|h n r]; intros d x y.
+  induction 1 as [|h items r Hr IH|h n r]; intros d sd x y.
   - reflexivity.
-  - cbn [lloop estep set_name locals0 l_entry a_dir a_last]. apply IH.
+  - cbn [lloop estep set_name locals0 l_entry a_dir a_last a_started]. apply IH.
   - cbn [lloop estep set_name locals0 l_entry]. destruct (bad_name n); reflexivity.
 Qed.
 
@@ -381,15 +381,15 @@ Qed.
 Definition with_xattrs (l : locals) (xs : list (bytes * bytes)) : locals :=
   mkLocals (l_entry l) (l_payload l) (l_symlink l) (l_device l) (l_xattrs l ++ xs) (l_name l).
 
-Lemma xattrs_run d : forall xs l tail e,
+Lemma xattrs_run d sd : forall xs l tail e,
   l_entry l = Some e -> Forall wf_xattr xs ->
-  lloop d l (map xattr_elem xs ++ tail) = lloop d (with_xattrs l xs) tail.
+  lloop d sd l (map xattr_elem xs ++ tail) = lloop d sd (with_xattrs l xs) tail.
 Proof.
   induction xs as [|[k v] xs IH]; intros l tail e He Hw.
   - cbn [map app]. unfold with_xattrs. rewrite app_nil_r. destruct l; reflexivity.
   - inversion Hw as [|? ? (Hk & _ & _) Hr]; subst. cbn [fst] in Hk.
     cbn [map app]. unfold xattr_elem at 1. cbn [fst snd lloop estep]. rewrite He, (split_nul_app k v Hk).
-    cbn [a_dir]. rewrite (IH (add_xattr l (k, v)) tail e); [|exact He|exact Hr].
+    cbn [a_dir a_started]. rewrite (IH (add_xattr l (k, v)) tail e); [|exact He|exact Hr].
     unfold with_xattrs, add_xattr. cbn [l_entry l_payload l_symlink l_device l_xattrs l_name].
     rewrite <- app_assoc. reflexivity.
 Qed.
@@ -398,13 +398,13 @@ Qed.
 Definition after_head (a : attrs) (nm : bytes) : locals :=
   mkLocals (Some (meta_of a)) None None None (xs_of a) nm.
 
-Lemma head_run d path name t nm tail :
+Lemma head_run d sd path name t nm tail :
   wf_attrs (tree_attrs t) ->
-  lloop d (set_name locals0 nm) (head_elems (event_of path name t) ++ tail) =
-  lloop d (after_head (tree_attrs t) nm) tail.
+  lloop d sd (set_name locals0 nm) (head_elems (event_of path name t) ++ tail) =
+  lloop d sd (after_head (tree_attrs t) nm) tail.
 Proof.
   intros [Hm Ht Hu Hg Hmt Hx]. unfold head_elems. cbn [app lloop].
-  unfold entry_elem. cbn [estep set_name locals0 l_entry a_dir].
+  unfold entry_elem. cbn [estep set_name locals0 l_entry a_dir a_started].
   unfold set_entry. cbn [l_entry l_payload l_symlink l_device l_xattrs l_name].
   cbn [event_of fe_mode fe_uid fe_gid fe_mtime fe_xattrs].
   rewrite (mode_roundtrip _ Hm Ht), (u64_small _ Hu), (u64_small _ Hg).
@@ -432,8 +432,8 @@ Definition kids_nodes (d : list bytes) (ch : list (bytes * tree)) : list node :=
 
 Definition node_goal (c : tree) : Prop :=
   forall path name els, tar_tree path name c = Some els -> wf_tree c ->
-  forall d nm rest ns, good_name nm -> delimited rest -> lruns d rest ns ->
-  lruns d (filename_elem nm :: els ++ rest) (nodes_of (d ++ [nm]) c ++ ns).
+  forall d nm rest ns, good_name nm -> delimited rest -> lruns d true rest ns ->
+  lruns d true (filename_elem nm :: els ++ rest) (nodes_of (d ++ [nm]) c ++ ns).
 
 Lemma ws_kids enc g_h g_its rest :
   ws rest -> ws (flat_map kid_stream enc ++ Goodbye g_h g_its :: rest).
@@ -444,8 +444,8 @@ Qed.
 Lemma kids_run path : forall ch enc,
   Forall2 (kid_rel path) ch enc -> Forall (fun p => node_goal (snd p)) ch -> wf_kids ch ->
   forall d g_h g_its rest ns,
-  ws rest -> lruns d (Goodbye g_h g_its :: rest) ns ->
-  lruns d (flat_map kid_stream enc ++ Goodbye g_h g_its :: rest) (kids_nodes d ch ++ ns).
+  ws rest -> lruns d true (Goodbye g_h g_its :: rest) ns ->
+  lruns d true (flat_map kid_stream enc ++ Goodbye g_h g_its :: rest) (kids_nodes d ch ++ ns).
 Proof.
   induction 1 as [|[nm c] [nm' els] ch enc [Hn Hc] Hrel IH]; intros Hgoal Hwf d g_h g_its rest ns Hws Hruns.
   - exact Hruns.
@@ -461,40 +461,64 @@ Qed.
 
 Definition is_delim (c : elem) : Prop := (exists h n, c = Filename h n) \/ (exists h its, c = Goodbye h its).
 
+(* only the first entry of an archive may come without a name (a.started) *)
+Definition name_ok (sd : bool) (nm : bytes) : Prop := nm <> [] \/ sd = false.
+
+Lemma efinish_ok st l e : name_ok (a_started st) (l_name l) ->
+  efinish st l e = SRet (finish_node (mkAState (a_dir st) (a_last st) true) l e).
+Proof.
+  intros [H|H]; unfold efinish.
+  - destruct (l_name l); [congruence|reflexivity].
+  - rewrite H. destruct (l_name l); reflexivity.
+Qed.
+
 (* a node without payload, device or symlink element is a directory: returned when the next
    filename or goodbye element shows up, which stays unread *)
-Lemma dir_return d a nm c r : is_delim c ->
-  lloop d (after_head a nm) (c :: r) =
-  LNode (NDirectory (join d nm) (meta_of a) (xs_of a)) (join d nm) (c :: r).
-Proof. intros [(h & n & ->)|(h & its & ->)]; reflexivity. Qed.
-
-Lemma link_return d a nm tg c r : is_delim c ->
-  lloop d (after_head a nm) (symlink_elem tg :: c :: r) =
-  LNode (NSymlink (join d nm) (meta_of a) (xs_of a) tg) d (c :: r).
-Proof. intros [(h & n & ->)|(h & its & ->)]; reflexivity. Qed.
-
-Lemma dev_return d a nm major minor c r : is_delim c ->
-  lloop d (after_head a nm) (device_elem major minor :: c :: r) =
-  LNode (NDevice (join d nm) (meta_of a) (xs_of a) major minor) d (c :: r).
-Proof. intros [(h & n & ->)|(h & its & ->)]; reflexivity. Qed.
-
-Lemma file_return d a nm data r : small data ->
-  lloop d (after_head a nm) (payload_elem (lenN data) data :: r) =
-  LNode (NFile (join d nm) (meta_of a) (xs_of a) (lenN data) data) d r.
+Lemma dir_return d sd a nm c r : is_delim c -> name_ok sd nm ->
+  lloop d sd (after_head a nm) (c :: r) =
+  LNode (NDirectory (join d nm) (meta_of a) (xs_of a)) (join d nm) true (c :: r).
 Proof.
-  intros Hs. cbn [lloop payload_elem estep after_head l_entry]. unfold finish, set_payload.
-  cbn [l_payload h_size a_dir fst snd last_list a_last app l_name l_xattrs].
+  intros [(h & n & ->)|(h & its & ->)] Hn; cbn [lloop estep after_head l_entry];
+    rewrite efinish_ok by exact Hn; reflexivity.
+Qed.
+
+Lemma link_return d sd a nm tg c r : is_delim c -> name_ok sd nm ->
+  lloop d sd (after_head a nm) (symlink_elem tg :: c :: r) =
+  LNode (NSymlink (join d nm) (meta_of a) (xs_of a) tg) d true (c :: r).
+Proof.
+  intros [(h & n & ->)|(h & its & ->)] Hn; cbn [lloop symlink_elem estep after_head l_entry set_symlink a_dir a_started];
+    rewrite efinish_ok by exact Hn; reflexivity.
+Qed.
+
+Lemma dev_return d sd a nm major minor c r : is_delim c -> name_ok sd nm ->
+  lloop d sd (after_head a nm) (device_elem major minor :: c :: r) =
+  LNode (NDevice (join d nm) (meta_of a) (xs_of a) major minor) d true (c :: r).
+Proof.
+  intros [(h & n & ->)|(h & its & ->)] Hn; cbn [lloop device_elem estep after_head l_entry set_device a_dir a_started];
+    rewrite efinish_ok by exact Hn; reflexivity.
+Qed.
+
+Lemma file_return d sd a nm data r : small data -> name_ok sd nm ->
+  lloop d sd (after_head a nm) (payload_elem (lenN data) data :: r) =
+  LNode (NFile (join d nm) (meta_of a) (xs_of a) (lenN data) data) d true r.
+Proof.
+  intros Hs Hn. cbn [lloop payload_elem estep after_head l_entry]. rewrite efinish_ok by exact Hn.
+  unfold finish_node, set_payload.
+  cbn [l_payload h_size a_dir a_started fst snd last_list a_last app l_name l_xattrs].
   rewrite sub64_exact; [|lia|unfold small in Hs; change (2 ^ 61) with 2305843009213693952 in Hs; lia].
   replace (16 + lenN data - 16) with (lenN data) by lia. reflexivity.
 Qed.
 
 (* the filename element in front of a node *)
-Lemma filename_step d nm ls : good_name nm ->
-  lnext d (filename_elem nm :: ls) = lloop d (set_name locals0 nm) ls.
+Lemma filename_step d sd nm ls : good_name nm ->
+  lnext d sd (filename_elem nm :: ls) = lloop d sd (set_name locals0 nm) ls.
 Proof. intros [Hb _]. unfold lnext. cbn [lloop filename_elem estep locals0 l_entry]. rewrite Hb. reflexivity. Qed.
 
-Lemma goodbye_step d h its ls : lnext d (Goodbye h its :: ls) = lnext (removelast d) ls.
+Lemma goodbye_step d sd h its ls : lnext d sd (Goodbye h its :: ls) = lnext (removelast d) sd ls.
 Proof. reflexivity. Qed.
+
+Lemma good_name_ok sd nm : good_name nm -> name_ok sd nm.
+Proof. intros H. left. apply good_name_nonempty, H. Qed.
 
 Lemma kids_head_delim enc g_h g_its rest :
   exists c r, flat_map kid_stream enc ++ Goodbye g_h g_its :: rest = c :: r /\ is_delim c.
@@ -527,9 +551,9 @@ Proof.
     cbn [nodes_of app]. unfold goodbye_elem. rewrite <- !app_assoc. cbn [app].
     destruct (kids_head_delim enc (mkHeader (16 + N.of_nat (length its) * 24) CaFormatGoodbye) its rest) as (c0 & r0 & E0 & Hd0).
     eapply lruns_node.
-    + rewrite (filename_step d nm _ Hgn).
-      rewrite (head_run d path name (TDir a ch) nm _ Ha). cbn [tree_attrs].
-      rewrite E0. rewrite (dir_return d a nm c0 r0 Hd0). rewrite (join_good d nm Hgn). reflexivity.
+    + rewrite (filename_step d true nm _ Hgn).
+      rewrite (head_run d true path name (TDir a ch) nm _ Ha). cbn [tree_attrs].
+      rewrite E0. rewrite (dir_return d true a nm c0 r0 Hd0 (good_name_ok _ _ Hgn)). rewrite (join_good d nm Hgn). reflexivity.
     + rewrite <- E0. fold (kids_nodes (d ++ [nm]) ch).
       apply (kids_run path ch enc Hrel IH Hk); [apply Hdel|].
       eapply lruns_ext; [|exact Hruns]. rewrite goodbye_step. rewrite removelast_last. reflexivity.
@@ -537,30 +561,30 @@ Proof.
     destruct Hwf as (Ha & Hty & Hs). rewrite tar_tree_file in Etar. injection Etar as <-.
     cbn [nodes_of app]. rewrite <- !app_assoc. cbn [app].
     eapply lruns_node; [|exact Hruns].
-    rewrite (filename_step d nm _ Hgn).
-    etransitivity; [exact (head_run d path name (TFile a dt) nm _ Ha)|]. cbn [tree_attrs].
-    rewrite (file_return d a nm dt rest Hs). rewrite (join_good d nm Hgn). reflexivity.
+    rewrite (filename_step d true nm _ Hgn).
+    etransitivity; [exact (head_run d true path name (TFile a dt) nm _ Ha)|]. cbn [tree_attrs].
+    rewrite (file_return d true a nm dt rest Hs (good_name_ok _ _ Hgn)). rewrite (join_good d nm Hgn). reflexivity.
   - (* symlink *)
     destruct Hwf as (Ha & Hty & Hs). rewrite tar_tree_link in Etar. injection Etar as <-.
     cbn [nodes_of app]. rewrite <- !app_assoc. cbn [app].
     destruct (delimited_head rest Hdel) as (c0 & r0 & -> & Hd0).
     eapply lruns_node; [|exact Hruns].
-    rewrite (filename_step d nm _ Hgn).
-    etransitivity; [exact (head_run d path name (TLink a tg) nm _ Ha)|]. cbn [tree_attrs].
-    rewrite (link_return d a nm tg c0 r0 Hd0). rewrite (join_good d nm Hgn). reflexivity.
+    rewrite (filename_step d true nm _ Hgn).
+    etransitivity; [exact (head_run d true path name (TLink a tg) nm _ Ha)|]. cbn [tree_attrs].
+    rewrite (link_return d true a nm tg c0 r0 Hd0 (good_name_ok _ _ Hgn)). rewrite (join_good d nm Hgn). reflexivity.
   - (* device *)
     destruct Hwf as (Ha & Hty). rewrite tar_tree_dev in Etar. injection Etar as <-.
     cbn [nodes_of app]. rewrite <- !app_assoc. cbn [app].
     destruct (delimited_head rest Hdel) as (c0 & r0 & -> & Hd0).
     eapply lruns_node; [|exact Hruns].
-    rewrite (filename_step d nm _ Hgn).
-    etransitivity; [exact (head_run d path name (TDev a r) nm _ Ha)|]. cbn [tree_attrs].
-    rewrite (dev_return d a nm _ _ c0 r0 Hd0). rewrite (join_good d nm Hgn). reflexivity.
+    rewrite (filename_step d true nm _ Hgn).
+    etransitivity; [exact (head_run d true path name (TDev a r) nm _ Ha)|]. cbn [tree_attrs].
+    rewrite (dev_return d true a nm _ _ c0 r0 Hd0 (good_name_ok _ _ Hgn)). rewrite (join_good d nm Hgn). reflexivity.
   - (* fifo, socket: nothing was written but the filename element; the decoder forgets it *)
     rewrite tar_tree_other in Etar. injection Etar as <-. cbn [nodes_of app].
     eapply lruns_ext; [|exact Hruns].
-    rewrite (filename_step d nm _ Hgn). unfold lnext.
-    apply (name_independent rest (proj2 Hdel) d nm []).
+    rewrite (filename_step d true nm _ Hgn). unfold lnext.
+    apply (name_independent rest (proj2 Hdel) d true nm []).
 Qed.
 
 (* ---------- the whole archive ---------- *)
@@ -568,11 +592,11 @@ Qed.
 (* Tar() of something that is not a directory or a regular file: see root_link_lost *)
 Definition root_ok (t : tree) : Prop := match t with TDir _ _ | TFile _ _ => True | _ => False end.
 
-Lemma lnext_nil d : lnext d [] = LEnd.
+Lemma lnext_nil d sd : lnext d sd [] = LEnd.
 Proof. reflexivity. Qed.
 
 Lemma root_runs t els :
-  wf_tree t -> root_ok t -> tar_tree [] [] t = Some els -> lruns [] els (nodes_of [] t).
+  wf_tree t -> root_ok t -> tar_tree [] [] t = Some els -> lruns [] false els (nodes_of [] t).
 Proof.
   intros Hwf Hroot Etar. destruct t as [a ch|a dt|a tg|a r|a]; try contradiction.
   - apply wf_tree_dir in Hwf. destruct Hwf as (Ha & Hty & Hlen & Hk).
@@ -582,8 +606,8 @@ Proof.
     destruct (kids_head_delim enc (mkHeader (16 + N.of_nat (length its) * 24) CaFormatGoodbye) its []) as (c0 & r0 & E0 & Hd0).
     eapply lruns_node.
     + unfold lnext. change locals0 with (set_name locals0 []).
-      etransitivity; [exact (head_run [] [] [] (TDir a ch) [] _ Ha)|]. cbn [tree_attrs].
-      rewrite E0. rewrite (dir_return [] a [] c0 r0 Hd0). reflexivity.
+      etransitivity; [exact (head_run [] false [] [] (TDir a ch) [] _ Ha)|]. cbn [tree_attrs].
+      rewrite E0. rewrite (dir_return [] false a [] c0 r0 Hd0 (or_intror eq_refl)). reflexivity.
     + cbn [join]. rewrite <- E0. fold (kids_nodes [] ch).
       rewrite <- (app_nil_r (kids_nodes [] ch)).
       apply (kids_run [] ch enc Hrel); [|exact Hk|constructor|].
@@ -592,8 +616,8 @@ Proof.
   - destruct Hwf as (Ha & Hty & Hs). rewrite tar_tree_file in Etar. injection Etar as <-.
     cbn [nodes_of]. eapply lruns_node; [|apply lruns_end; apply lnext_nil].
     unfold lnext. change locals0 with (set_name locals0 []).
-    etransitivity; [exact (head_run [] [] [] (TFile a dt) [] _ Ha)|]. cbn [tree_attrs].
-    rewrite (file_return [] a [] dt [] Hs). reflexivity.
+    etransitivity; [exact (head_run [] false [] [] (TFile a dt) [] _ Ha)|]. cbn [tree_attrs].
+    rewrite (file_return [] false a [] dt [] Hs (or_intror eq_refl)). reflexivity.
 Qed.
 
 (* The element stream written by tar() for the tree t, encoded by FormatEncoder and read back by
@@ -621,7 +645,7 @@ Proof.
   apply archive_sim; [exact Hwe|]. destruct Hwf as (Ha & Hty & Hs).
   rewrite tar_tree_link in Etar. injection Etar as <-.
   apply lruns_end. unfold lnext. change locals0 with (set_name locals0 []).
-  etransitivity; [exact (head_run [] [] [] (TLink a tg) [] _ Ha)|]. reflexivity.
+  etransitivity; [exact (head_run [] false [] [] (TLink a tg) [] _ Ha)|]. reflexivity.
 Qed.
 
 (* ---------- Part 3: tar() on the event stream of a walk ---------- *)
